@@ -141,6 +141,7 @@ func runC15(c *Ctx) {
 	p := c.Progs["mod"]
 	c.Rule("C15.Y", "compatibility with the party that is not changed with this code: no websocket extension or subprotocol is offered; --force-http2 decides the pass-through transport", 2)
 	ruleBridgeHandshakeVocabulary(c, p, "C15.Y")
+	ruleNoDeadlineClosesBridge(c, p, "C15.Y")
 	ruleFlagDecidesH2C(c, p, "C15.Y", "utils/tcpbridge/tcp-bridge-backend.main", "forceHTTP2", "backend:force-http2-decides-the-transport")
 	c.Rule("C15.E", "hex/text codec agreement and buffer discipline of WebsocketNetConn; sockets are closed orderly (= C16.A)", 10)
 	ruleNoAbortiveLinger(c, p, "C15.E")
@@ -353,7 +354,20 @@ func runC15(c *Ctx) {
 		waits := Calls(bs.Fn, "(*sync.WaitGroup).Wait")
 		okwg := len(adds) >= 1 && len(waits) == 1
 		total := 0
+		// directions started through a go-runner helper (`goWait(&wg, func() {…})`: Add(1), then a
+		// goroutine that defers Done and runs the function once): one Add and one Done per call
+		runners := map[*ssa.Function]bool{}
+		for _, g := range bs.Gos {
+			if h := goRunnerOf(g); h != nil && waitGroupGoHelper(h) {
+				runners[h] = true
+				total++
+				dones++
+			}
+		}
 		for _, a := range adds {
+			if runners[a.Parent()] {
+				continue
+			}
 			n, isC := ConstInt(PArgs(CallOf(a))[1])
 			if !isC || n < 1 || (a.Parent() != bs.Fn && !helperCalledFrom(a.Parent(), bs.Fn)) || (InLoop(a.Block()) && !InLoop(bs.Fn.Blocks[0])) || (okwg && !Dominates(a, waits[0])) {
 				okwg = false
@@ -644,6 +658,7 @@ func runC16(c *Ctx) {
 	c.Rule("C16.K", "completion of either copy direction closes the pair", 4)
 	c.Rule("C16.D", "every acquired connection is released on exit; Close of the bridge's connection type closes its transport", 5)
 	c.Rule("C16.A", "closing is orderly and cannot be blocked: no abortive-close socket option, Close never waits for a lock held across blocking I/O; no raw descriptor access; dial context not retained; dial bounded in time; no message-size limit that cuts a stream short (= C15.L); Read hands out everything before the end (= C15.E)", 11)
+	ruleNoDeadlineClosesBridge(c, p, "C16.A")
 	c16Orderly(c, p)
 	ruleNoRawDescriptor(c, p, "C16.A")
 	ruleDialContextNotRetained(c, p, "C16.A")
@@ -985,4 +1000,70 @@ func instrPosStr(p *Prog, i ssa.Instruction) string {
 		return "-"
 	}
 	return p.Pos(i.Pos())
+}
+
+// goRunnerOf: the new helper a closure is handed to in order to be run on a goroutine (see
+// goRunByHelper), or nil.
+func goRunnerOf(fn *ssa.Function) *ssa.Function {
+	par := fn.Parent()
+	if par == nil || !goRunByHelper(fn) {
+		return nil
+	}
+	var h *ssa.Function
+	EachInstrRaw(par, func(i ssa.Instruction) {
+		if call, isCall := i.(*ssa.Call); isCall {
+			for _, a := range call.Call.Args {
+				if mc, isMC := a.(*ssa.MakeClosure); isMC && mc.Fn == ssa.Value(fn) {
+					h = call.Call.StaticCallee()
+				}
+			}
+		}
+	})
+	return h
+}
+
+// waitGroupGoHelper: h does wg.Add(1) once, outside loops, before it starts its one goroutine,
+// and that goroutine defers wg.Done() on entry.
+func waitGroupGoHelper(h *ssa.Function) bool {
+	adds := Calls(h, "(*sync.WaitGroup).Add")
+	if len(adds) != 1 || adds[0].Parent() != h || InLoop(adds[0].Block()) {
+		return false
+	}
+	if n, isC := ConstInt(CallOf(adds[0]).Args[1]); !isC || n != 1 {
+		return false
+	}
+	gos := 0
+	ok := true
+	EachInstrRaw(h, func(i ssa.Instruction) {
+		g, isGo := i.(*ssa.Go)
+		if !isGo {
+			return
+		}
+		gos++
+		if InLoop(g.Block()) || !Dominates(adds[0], g) {
+			ok = false
+			return
+		}
+		var body *ssa.Function
+		switch v := g.Call.Value.(type) {
+		case *ssa.MakeClosure:
+			body, _ = v.Fn.(*ssa.Function)
+		case *ssa.Function:
+			body = v
+		}
+		if body == nil || len(body.Blocks) == 0 {
+			ok = false
+			return
+		}
+		deferred := false
+		for _, in := range body.Blocks[0].Instrs {
+			if d, isD := in.(*ssa.Defer); isD && CalleeName(&d.Call) == "(*sync.WaitGroup).Done" {
+				deferred = true
+			}
+		}
+		if !deferred {
+			ok = false
+		}
+	})
+	return gos == 1 && ok
 }
